@@ -69,7 +69,9 @@ func (c *FrameCodec) Decode(src *sonic.ByteBuffer) (Frame, error) {
 	c.decodeFrame = src.Data()[:readSoFar]
 
 	payloadLength := c.decodeFrame.PayloadLength()
-	if payloadLength > c.maxMessageSize {
+	// A 64-bit length with the top bit set converts to a negative int: it is
+	// larger than any limit, not smaller.
+	if payloadLength < 0 || payloadLength > c.maxMessageSize {
 		c.decodeFrame = nil
 		return nil, ErrPayloadOverMaxSize
 	}
